@@ -240,6 +240,7 @@ func (e *Env) runOn(r *rand.Rand, srv *fakeredis.Server, startApps []fakeredis.A
 	l := &RunLog{Depth: depth, StartApps: startApps}
 	n0 := len(srv.Applied())
 	finish := func() {
+		srv.WaitNoConns(5 * time.Second) // requests dispatched before the stop are drained first
 		apps := srv.Applied()[n0:]
 		l.Apps = apps
 		l.NReqs = srv.Seq()
@@ -298,6 +299,7 @@ func (e *Env) runOn(r *rand.Rand, srv *fakeredis.Server, startApps []fakeredis.A
 			case <-ar.F.AllOut():
 				time.Sleep(2*e.C.KeepAlive + 10*time.Millisecond)
 			case <-time.After(60 * time.Second):
+				l.Note = fmt.Sprintf("remaining %d bytes not consumed within 60 s (handed %d)", len(rest), ar.F.Handed())
 			}
 			close(ch)
 		}()
